@@ -51,7 +51,9 @@ def run_one(m, props=None):
             p = subprocess.run([os.path.join(VERIF, "verif"), "check", c], env=env, cwd=VERIF,
                                stdout=subprocess.PIPE, stderr=subprocess.STDOUT, text=True)
             lines = [l.replace(s + "/", "") for l in p.stdout.splitlines() if l.startswith("  ") or "ERROR" in l]
-            res[c] = dict(rc=p.returncode, reports=lines[:6])
+            if p.returncode not in (0, 1):
+                lines = [l.replace(s + "/", "") for l in p.stdout.splitlines()][-8:]
+            res[c] = dict(rc=p.returncode, reports=lines[:8])
         caught = [c for c, r in res.items() if r["rc"] == 1]
         broken = [c for c, r in res.items() if r["rc"] not in (0, 1)]
         want = m.get("expect", [])
